@@ -486,9 +486,21 @@ def check_options_hash(ctx, R="C18.options"):
     vnames = set(lib.locals_assigned(fn, lambda v: isinstance(v, ast.Subscript) and unparse(v.value) == mp))
     keyvars = {n.target.id for n in ast.walk(fn) if isinstance(n, ast.For) and isinstance(n.target, ast.Name) and mp in lib.names_loaded(n.iter)}
     ups = [c for c in walk_local(fn) if isinstance(c, ast.Call) and isinstance(c.func, ast.Attribute) and c.func.attr == "update" and c.args]
+
+    def deref(e):
+        for _ in range(4):
+            if isinstance(e, ast.Name) and e.id not in vnames | keyvars:
+                v = lib.local_value(fn, e.id)
+                if v is None:
+                    break
+                e = v
+            else:
+                break
+        return e
+
     n = 0
     for c in ups:
-        arg = c.args[0]
+        arg = deref(c.args[0])  # a local holding the converted value stands for the conversion
         used = lib.names_loaded(arg) & (vnames | keyvars)
         if not used:
             continue
@@ -521,7 +533,7 @@ def check_options_hash(ctx, R="C18.options"):
         raise AnalysisError("shape not recognised: the loop over the options in deterministicHash")
     lp = loops[0]
     skips = [x for x in ast.walk(lp) if isinstance(x, (ast.Continue, ast.Break)) or (isinstance(x, ast.Return) and x is not None)]
-    key_updates = [c for c in ups if lib.names_loaded(c.args[0]) & keyvars and any(c is y for y in ast.walk(lp))]
+    key_updates = [c for c in ups if lib.names_loaded(deref(c.args[0])) & keyvars and any(c is y for y in ast.walk(lp))]
     conditional = [c for c in key_updates if lib.enclosing_tests(c, lp)]
     if skips or conditional or not key_updates:
         where = skips[0] if skips else (conditional[0] if conditional else lp)
